@@ -11,6 +11,7 @@ import (
 	"path/filepath"
 	"strings"
 	"sync"
+	"sync/atomic"
 	"time"
 )
 
@@ -20,6 +21,8 @@ type SolverCfg struct {
 	Scratch   string
 	Seed      int
 }
+
+var queryCounter int64
 
 var solverNames = []string{"z3-new", "z3", "cvc5"}
 
@@ -69,7 +72,7 @@ type solveResult struct {
 }
 
 func runSolver(name, query string, cfg *SolverCfg, wantModel bool, id string) solveResult {
-	file := filepath.Join(cfg.Scratch, fmt.Sprintf("%s_%s.smt2", id, name))
+	file := filepath.Join(cfg.Scratch, fmt.Sprintf("q%d_%s_%s.smt2", atomic.AddInt64(&queryCounter, 1), id, name))
 	q := query
 	if name == "cvc5" {
 		q = "(set-option :produce-models true)\n" + q
@@ -82,6 +85,8 @@ func runSolver(name, query string, cfg *SolverCfg, wantModel bool, id string) so
 			os.Remove(file)
 		}
 	}()
+	solverSem <- struct{}{}
+	defer func() { <-solverSem }()
 	ctx, cancel := context.WithTimeout(context.Background(), time.Duration(cfg.TimeoutMs+3000)*time.Millisecond)
 	defer cancel()
 	cmd := solverCmd(name, file, cfg.TimeoutMs, cfg.Seed)
